@@ -4,6 +4,7 @@ import hashlib, json, multiprocessing, os, random, sys, time, traceback
 sys.set_int_max_str_digits(0)
 
 VERIF = os.path.dirname(os.path.dirname(os.path.dirname(os.path.abspath(__file__))))
+OUT = os.environ.get("VERIF_OUT") or VERIF     # evidence/replays/work; only tools/seed_par.sh redirects it (scratch runs)
 NCPU = min(16, os.cpu_count() or 4)
 
 def h64(s):
@@ -132,8 +133,8 @@ def finish(pid, tier, seed, level, acc, rule, t0, assumptions=None, extra=None, 
         "wall_s": round(time.time() - t0, 2),
         "violations": len(new) + max(0, overflow),
     }
-    os.makedirs(os.path.join(VERIF, "evidence"), exist_ok=True)
-    with open(os.path.join(VERIF, "evidence", pid + ".json"), "w") as f:
+    os.makedirs(os.path.join(OUT, "evidence"), exist_ok=True)
+    with open(os.path.join(OUT, "evidence", pid + ".json"), "w") as f:
         json.dump(ev, f, indent=1, ensure_ascii=False, default=str)
         f.write("\n")
 
@@ -141,13 +142,13 @@ def finish(pid, tier, seed, level, acc, rule, t0, assumptions=None, extra=None, 
         print("KNOWN-FINDING: property=%s %s [%s]" % (pid, k.get("what", v["what"]), sig))
 
     status = 0
-    rdir = os.path.join(VERIF, "replays", pid)
+    rdir = os.path.join(OUT, "replays", pid)
     if os.path.isdir(rdir):
         for fn in os.listdir(rdir):
             if fn.startswith("%s-%s-" % (tier, seed)):
                 os.unlink(os.path.join(rdir, fn))
-    os.makedirs(os.path.join(VERIF, "work"), exist_ok=True)
-    with open(os.path.join(VERIF, "work", "%s-signatures.json" % pid), "w") as f:
+    os.makedirs(os.path.join(OUT, "work"), exist_ok=True)
+    with open(os.path.join(OUT, "work", "%s-signatures.json" % pid), "w") as f:
         allsigs = {}
         for v in acc.violations:
             allsigs.setdefault(v["sig"], v["what"])
